@@ -19,16 +19,12 @@ def check(ctx):
     ctx.guard(r051, ctx)
     from .c04 import sweep_structure
     ctx.guard(sweep_structure, ctx, "R05.1")
-    ctx.rule("R05.4", "scores, labels and sensitive features are paired by position in the optimiser's training frame "
-                      "(label-provenance analysis of ThresholdOptimizer.fit, shared with C12 R12.1)")
-    from .c12 import label_sinks
-    ctx.guard(label_sinks, ctx, "R05.4", [(TO + ".fit", TO)])
-    out = routines(ctx, "C05")
+    out = ctx.guard(routines, ctx, "C05") or {}
     if "simple" in out:
-        _simple(ctx, out["simple"])
+        ctx.guard(_simple, ctx, out["simple"])
     if "eo" in out:
-        _eo(ctx, out["eo"])
-
+        ctx.guard(_eo, ctx, out["eo"])
+    ctx.guard(_shared_c05, ctx)
 
 def r051(ctx):
     A = Analysis(ctx)
@@ -139,3 +135,14 @@ def _eo(ctx, d):
     ok = ok and ib.data["value"].args[0].args[1] in ("idxmax", "argmax")
     ctx.ob("R05.2", fq, ib.node, ok, "the index maximises METRIC_DICT[objective] of those counts" + (" (rounded to 15 digits)" if rounded else ""),
            construct="eo: objective argmax")
+
+
+def _shared_c05(ctx):
+    """Life-cycle (history independence, pure prediction) and label-position clauses of the estimator(s) this property
+    is about, shared with C19 R19.3/R19.4 and C12 R12.1 and reported under this property's rule ids."""
+    from .c12 import label_sinks
+    from .c19 import lifecycle_of
+    ctx.rule("R05.5", "fit does not depend on state left by an earlier fit and prediction writes no state (shared with C19 R19.3 / R19.4)")
+    lifecycle_of(ctx, [TO], {"R19.3": "R05.5", "R19.4": "R05.5"})
+    ctx.rule("R05.4", "no caller-labelled pandas value reaches a label-aligning operation on the paths of this property (shared with C12 R12.1)")
+    label_sinks(ctx, "R05.4", [(TO + ".fit", TO)])
